@@ -2,6 +2,7 @@ package main
 
 import (
 	"fmt"
+	"go/token"
 	"strings"
 
 	"golang.org/x/tools/go/ssa"
@@ -32,35 +33,7 @@ func checkC14(cx *Ctx, r *Report) {
 	}
 	r.NotDec = []string{"peak heap of the XML decoder on the (bounded) inflated data", "net/http's own limits on the compressed request size"}
 	r.Assume = []string{"io.LimitReader and compress/flate behave as documented"}
-	n := 0
-	for _, fn := range w.Funcs {
-		for _, c := range callsIn(fn) {
-			name := calleeName(c)
-			if !decompressorCtors[name] {
-				continue
-			}
-			call, ok := c.(*ssa.Call)
-			if !ok {
-				continue
-			}
-			n++
-			key := w.FuncKey(fn) + ":" + shortCallee(name)
-			var rd ssa.Value = call
-			if call.Call.Signature().Results().Len() > 1 {
-				rd = nil
-				for _, ref := range *call.Referrers() {
-					if e, ok := ref.(*ssa.Extract); ok && e.Index == 0 {
-						rd = e
-					}
-				}
-			}
-			if rd == nil {
-				r.Undecided("R-BOUND", key, w.InstrPos(call), "reader result not found")
-				continue
-			}
-			cx.checkReaderUses(r, key, fn, rd, map[ssa.Value]bool{}, 0)
-		}
-	}
+	n := cx.checkDecompressors(r)
 	if n == 0 {
 		r.Fail("R-BOUND", "#decompressors", "", "no decompressing reader found in the module although the IdP accepts DEFLATE-encoded requests: the inflating code is no longer visible to the analysis")
 	}
@@ -107,6 +80,12 @@ func (cx *Ctx) checkReaderUses(r *Report, key string, fn *ssa.Function, rd ssa.V
 			cx.checkReaderUses(r, key, fn, x, seen, depth+1)
 		case *ssa.Phi:
 			cx.checkReaderUses(r, key, fn, x, seen, depth+1)
+		case *ssa.TypeAssert:
+			cx.checkReaderUses(r, key, fn, x, seen, depth+1)
+		case *ssa.Extract:
+			if x.Index == 0 {
+				cx.checkReaderUses(r, key, fn, x, seen, depth+1)
+			}
 		case *ssa.Store:
 			// stored in a local variable: follow the loads
 			if cell := cx.Fx.ownerCell(x.Addr); cell != nil && x.Val == rd {
@@ -131,17 +110,22 @@ func (cx *Ctx) checkReaderUses(r *Report, key string, fn *ssa.Function, rd ssa.V
 			name := calleeName(x)
 			com := x.Common()
 			switch {
-			case com.IsInvoke() && (com.Method.Name() == "Close" || com.Method.Name() == "Reset") && com.Value == rd:
+			case com.IsInvoke() && com.Method.Name() == "Close" && com.Value == rd:
+			case com.IsInvoke() && com.Method.Name() == "Reset" && com.Value == rd:
+				r.Fail("R-BOUND", key+":reset", w.InstrPos(x), "the decompressing reader is re-armed with Reset: a limit placed on it bounds each stream, not what the request inflates to in total")
 			case name == "io.LimitReader":
-				b, ok := constInt(com.Args[1])
+				fi := cx.Fx.info(x.Parent())
+				sb := cx.symBound(com.Args[1])
 				switch {
-				case !ok:
-					r.Fail("R-BOUND", key+":limit", w.InstrPos(x), "the limit of io.LimitReader is not a compile-time constant: a configuration or request value decides how much is inflated")
-				case b <= 0 || b > maxInflateBound+1:
-					r.Fail("R-BOUND", key+":limit", w.InstrPos(x), fmt.Sprintf("the limit %d is outside (0, 64 MiB]", b))
+				case fi.reachable(x.Block(), x.Block()):
+					r.Fail("R-BOUND", key+":limit", w.InstrPos(x), "the limiter is created inside a loop: each pass may read up to the bound, the total is unbounded")
+				case !sb.ok:
+					r.Fail("R-BOUND", key+":limit", w.InstrPos(x), "the limit of io.LimitReader is not a compile-time constant (nor a parameter that every caller gives a constant): a configuration or request value decides how much is inflated")
+				case sb.min <= 0 || sb.max > maxInflateBound+1:
+					r.Fail("R-BOUND", key+":limit", w.InstrPos(x), fmt.Sprintf("the limit %d..%d is outside (0, 64 MiB]", sb.min, sb.max))
 				default:
-					r.Ok("R-BOUND", key+":limit", w.InstrPos(x), fmt.Sprintf("consumed through io.LimitReader with the constant bound %d", b))
-					cx.checkOverlong(r, key, x.(*ssa.Call), b)
+					r.Ok("R-BOUND", key+":limit", w.InstrPos(x), fmt.Sprintf("consumed through io.LimitReader with the constant bound %s", sb))
+					cx.checkOverlong(r, key, x.(*ssa.Call), sb)
 				}
 			case name == "io.CopyN":
 				b, ok := constInt(com.Args[2])
@@ -172,7 +156,7 @@ func (cx *Ctx) checkReaderUses(r *Report, key string, fn *ssa.Function, rd ssa.V
 }
 
 // checkOverlong: the data read through the limiter is compared with the bound and the over-long case is an error.
-func (cx *Ctx) checkOverlong(r *Report, key string, lim *ssa.Call, bound int64) {
+func (cx *Ctx) checkOverlong(r *Report, key string, lim *ssa.Call, bound symBound) {
 	w, fx := cx.W, cx.Fx
 	fn := lim.Parent()
 	// find the ReadAll consuming the limiter, then a length test against bound-1 whose true edge returns an error
@@ -197,18 +181,19 @@ func (cx *Ctx) checkOverlong(r *Report, key string, lim *ssa.Call, bound int64) 
 		var cmp *Atom
 		for j := range p.Atoms {
 			a := &p.Atoms[j]
-			if a.Op == "LT" && strings.HasPrefix(a.B, "len(") && strings.HasPrefix(a.A, "const:") {
-				cmp = a
+			if a.Op == "LT" && strings.HasPrefix(a.B, "len(") {
+				if b, _ := parseSym(a.A); b == bound.base {
+					cmp = a
+				}
 			}
 		}
 		errv := fx.retVal(p, fn.Signature.Results().Len()-1)
 		isNil, nonNil := fx.errNilness(p, errv)
 		if cmp != nil && !cmp.Neg {
 			// over-long branch
-			var c int64
-			fmt.Sscanf(strings.TrimPrefix(cmp.A, "const:"), "%d", &c)
-			if c != bound-1 {
-				bad = fmt.Sprintf("the over-long test compares with %d but the limiter reads up to %d bytes: a stream longer than the cap is truncated silently or a legal one refused", c, bound)
+			_, c := parseSym(cmp.A)
+			if c != bound.k-1 {
+				bad = fmt.Sprintf("the over-long test is len > %s but the limiter reads up to %s bytes: a stream longer than the cap is truncated silently or a legal one refused", symString(bound.base, c), symString(bound.base, bound.k))
 			}
 			if !nonNil {
 				bad = "an over-long stream does not end in an error"
@@ -220,4 +205,145 @@ func (cx *Ctx) checkOverlong(r *Report, key string, lim *ssa.Call, bound int64) 
 		}
 	}
 	r.Check(okLong && bad == "", "R-BOUND", key+":overlong", w.InstrPos(lim), "more than the bound is an error; nothing is returned without the length test", bad)
+}
+
+// symBound: a limit of the form <base> + k, where base is "" (a constant) or the access path of a parameter that
+// every caller in the module gives a constant; min/max are the values the limit can take.
+type symBound struct {
+	base     string
+	k        int64
+	min, max int64
+	ok       bool
+}
+
+func symString(base string, k int64) string {
+	if base == "" {
+		return fmt.Sprint(k)
+	}
+	if i := strings.LastIndex(base, "/"); i >= 0 {
+		base = base[i+1:]
+	}
+	switch {
+	case k == 0:
+		return base
+	case k > 0:
+		return fmt.Sprintf("%s+%d", base, k)
+	}
+	return fmt.Sprintf("%s%d", base, k)
+}
+
+func (s symBound) String() string {
+	if s.base == "" {
+		return fmt.Sprint(s.k)
+	}
+	return fmt.Sprintf("%s (= %d..%d)", symString(s.base, s.k), s.min, s.max)
+}
+
+// parseSym splits an access path of the form const:N / (X+const:K) / X.
+func parseSym(p string) (string, int64) {
+	if strings.HasPrefix(p, "const:") {
+		var c int64
+		fmt.Sscanf(strings.TrimPrefix(p, "const:"), "%d", &c)
+		return "", c
+	}
+	if strings.HasPrefix(p, "(") && strings.HasSuffix(p, ")") {
+		in := p[1 : len(p)-1]
+		if i := strings.LastIndex(in, "+const:"); i > 0 {
+			var c int64
+			if _, err := fmt.Sscanf(in[i+len("+const:"):], "%d", &c); err == nil {
+				return in[:i], c
+			}
+		}
+		if i := strings.LastIndex(in, "-const:"); i > 0 {
+			var c int64
+			if _, err := fmt.Sscanf(in[i+len("-const:"):], "%d", &c); err == nil {
+				return in[:i], -c
+			}
+		}
+	}
+	return p, 0
+}
+
+func (cx *Ctx) symBound(v ssa.Value) symBound {
+	if c, ok := constInt(v); ok {
+		return symBound{"", c, c, c, true}
+	}
+	var k int64
+	cur := v
+	for depth := 0; depth < 6; depth++ {
+		switch x := cur.(type) {
+		case *ssa.Convert:
+			cur = x.X
+			continue
+		case *ssa.ChangeType:
+			cur = x.X
+			continue
+		case *ssa.BinOp:
+			if c, ok := constInt(x.Y); ok && (x.Op == token.ADD || x.Op == token.SUB) {
+				if x.Op == token.ADD {
+					k += c
+				} else {
+					k -= c
+				}
+				cur = x.X
+				continue
+			}
+		case *ssa.Parameter:
+			args := cx.Fx.argsOf[x]
+			if len(args) == 0 || token.IsExported(x.Parent().Name()) {
+				return symBound{}
+			}
+			sb := symBound{base: cx.Fx.path(x), k: k, ok: true}
+			for i, a := range args {
+				c, ok := constInt(a)
+				if !ok {
+					return symBound{}
+				}
+				if i == 0 || c+k < sb.min {
+					sb.min = c + k
+				}
+				if i == 0 || c+k > sb.max {
+					sb.max = c + k
+				}
+			}
+			return sb
+		}
+		break
+	}
+	return symBound{}
+}
+
+// checkDecompressors applies R-BOUND to every decompressing reader of the module; returns how many were found.
+func (cx *Ctx) checkDecompressors(r *Report) int {
+	w := cx.W
+	n := 0
+	for _, fn := range w.Funcs {
+		for _, c := range callsIn(fn) {
+			name := calleeName(c)
+			if !decompressorCtors[name] {
+				continue
+			}
+			call, ok := c.(*ssa.Call)
+			if !ok {
+				continue
+			}
+			n++
+			key := w.FuncKey(fn) + ":" + shortCallee(name)
+			var rd ssa.Value = call
+			if call.Call.Signature().Results().Len() > 1 {
+				rd = nil
+				for _, ref := range *call.Referrers() {
+					if e, ok := ref.(*ssa.Extract); ok && e.Index == 0 {
+						rd = e
+					}
+				}
+			}
+			if rd == nil {
+				r.Undecided("R-BOUND", key, w.InstrPos(call), "reader result not found")
+				continue
+			}
+			cx.checkReaderUses(r, key, fn, rd, map[ssa.Value]bool{}, 0)
+		}
+	}
+	return n
 }
